@@ -93,6 +93,8 @@ func (delegate *Delegate) NotifyMsg(msgBytes []byte) {
 		ctx := context.WithValue(
 			context.WithValue(context.Background(), internal.ContextServerID("ServerID"), string(msg.ServerID)),
 			internal.ContextConnID("ConnectionID"), msg.ConnId)
+		// The command runs in the database (and with the protocol) of the client that issued it.
+		ctx = context.WithValue(context.WithValue(ctx, "Protocol", msg.Protocol), "Database", msg.Database)
 
 		key := string(msg.Content)
 
@@ -110,6 +112,8 @@ func (delegate *Delegate) NotifyMsg(msgBytes []byte) {
 		ctx := context.WithValue(
 			context.WithValue(context.Background(), internal.ContextServerID("ServerID"), string(msg.ServerID)),
 			internal.ContextConnID("ConnectionID"), msg.ConnId)
+		// The command runs in the database (and with the protocol) of the client that issued it.
+		ctx = context.WithValue(context.WithValue(ctx, "Protocol", msg.Protocol), "Database", msg.Database)
 
 		cmd, err := internal.Decode(msg.Content)
 		if err != nil {
